@@ -134,7 +134,7 @@ def G(name, src, entry, enforce=None, replace=None, link=None, defs=None, loops=
       unwind=None, unwindset=None, flags=None, tier="quick", bounded=None, timeout=300,
       mem=12, functions=None, finding=None, replay="native", solver=None, noreach=False,
       stubs=None, object_bits=None, note=None, selftest=None, only_finding=None,
-      enforce_none=False, genbody=None, cflags=None, dfcc=True, replace_calls=None, split=None):
+      enforce_none=False, genbody=None, cflags=None, dfcc=True, replace_calls=None, split=None, drop_unused=False):
     enforce = enforce or []
     if isinstance(enforce, str):
         enforce = [enforce]
@@ -145,7 +145,7 @@ def G(name, src, entry, enforce=None, replace=None, link=None, defs=None, loops=
                  finding=finding, replay=replay, solver=solver, noreach=noreach,
                  stubs=stubs or [], object_bits=object_bits, note=note,
                  selftest=selftest, only_finding=only_finding, enforce_none=enforce_none,
-                 genbody=genbody, cflags=cflags or [], dfcc=dfcc, replace_calls=replace_calls or [], split=split)
+                 genbody=genbody, cflags=cflags or [], dfcc=dfcc, replace_calls=replace_calls or [], split=split, drop_unused=drop_unused)
 
 
 def load_checks(pid):
@@ -215,6 +215,14 @@ def build_group(g, gen, wd, extra_defs=()):
             if r["rc"] != 0:
                 raise Undecided("goto-instrument --generate-function-body failed for %s: %s" % (g.name, (r["err"] + r["out"])[-1500:]))
             a = a2
+    if g.get("drop_unused"):
+        # functions not reachable from the harness entry (e.g. the tool's main with everything it calls) are removed
+        # before the loop-contract pass, which otherwise inlines and analyses all of them (minutes on p2bin.c)
+        a4 = os.path.join(wd, "a_du.gb")
+        r = run(["goto-instrument", "--drop-unused-functions", a, a4], timeout=600, mem_gb=12)
+        if r["rc"] != 0:
+            raise Undecided("goto-instrument --drop-unused-functions failed for %s: %s" % (g.name, (r["err"] + r["out"])[-800:]))
+        a = a4
     if g.get("dfcc", True):
         cmd = ["goto-instrument", "--no-malloc-may-fail", "--dfcc", g.entry]
     else:
@@ -234,6 +242,8 @@ def build_group(g, gen, wd, extra_defs=()):
         cmd += ["--apply-loop-contracts"]
     cmd += [a, b]
     r = run(cmd, timeout=900, mem_gb=12)
+    if os.environ.get("VERIF_DEBUG"):
+        log("  %s: %s  %.0fs" % (g.name, " ".join(cmd[:6]), r["wall"]))
     if r["rc"] != 0:
         raise Undecided("goto-instrument failed for %s (rc %s):\n%s" %
                         (g.name, r["rc"], (r["err"] + r["out"])[-3000:]))
@@ -241,12 +251,45 @@ def build_group(g, gen, wd, extra_defs=()):
     return b
 
 
+def resolve_unwindset(g, binary):
+    """unwindset entries "@<container>:<source function>:<first|last|k>:<N>" name a loop by the function it was
+    written in (loop-contract instrumentation inlines callees, which renumbers the loops of the container):
+    among the loops of goto function <container> whose source lies in <source function>, ordered by line,
+    the first / last / k-th one gets bound N.  Resolved once per binary with cbmc --show-loops."""
+    if "_uws" in g and g.get("_uws_bin") == binary:
+        return g["_uws"]
+    out = []
+    loops = None
+    for e in g.unwindset:
+        if not e.startswith("@"):
+            out.append(e)
+            continue
+        cont, srcfn, which, n = e[1:].split(":")
+        if loops is None:
+            r = run(["cbmc", "--show-loops", "--json-ui", binary], timeout=300, mem_gb=8)
+            loops = []
+            try:
+                for it in json.loads(r["out"]):
+                    loops += it.get("loops", []) if isinstance(it, dict) else []
+            except Exception:
+                loops = []
+        cand = [l for l in loops if l["name"].rsplit(".", 1)[0] == cont and (l.get("sourceLocation") or {}).get("function") == srcfn]
+        cand.sort(key=lambda l: (int(l["sourceLocation"].get("line", 0)), int(l["name"].rsplit(".", 1)[1])))
+        if not cand:
+            continue  # loop gone: the global --unwind applies, a failing unwinding assertion reports undecided
+        pick = cand[0] if which == "first" else cand[-1] if which == "last" else cand[min(int(which), len(cand) - 1)]
+        out.append("%s:%s" % (pick["name"], n))
+    g["_uws"] = out
+    g["_uws_bin"] = binary
+    return out
+
+
 def cbmc_cmd(g, binary, trace=False, prop=None):
     cmd = ["cbmc", "--json-ui"] + DEFAULT_CBMC_FLAGS + list(g.flags)
     if g.unwind is not None:
         cmd += ["--unwind", str(g.unwind)]
     if g.unwindset:
-        cmd += ["--unwindset", ",".join(g.unwindset)]
+        cmd += ["--unwindset", ",".join(resolve_unwindset(g, binary))]
     if g.unwind is not None or g.unwindset:
         cmd += ["--unwinding-assertions"]
     if g.object_bits:
@@ -330,6 +373,8 @@ def verify_group(g, gen, scratch, extra_defs=(), tag=""):
     except Undecided as e:
         res.update(status="undecided", detail=str(e), wall=time.time() - t0)
         return res
+    if os.environ.get("VERIF_DEBUG"):
+        log("  %s: build %.0fs" % (g.name, time.time() - t0))
     cmd = cbmc_cmd(g, binary)
     res["cbmc_cmd"] = " ".join(cmd)
     if g.get("split"):
@@ -342,6 +387,8 @@ def verify_group(g, gen, scratch, extra_defs=(), tag=""):
         r = run(cmd, timeout=g.timeout, mem_gb=g.mem)
         results, status, msgs = (None, None, []) if r["timeout"] else parse_cbmc(r["out"])
     res["wall"] = time.time() - t0
+    if os.environ.get("VERIF_DEBUG"):
+        log("  %s: build+cbmc %.0fs" % (g.name, time.time() - t0))
     if r["timeout"]:
         res.update(status="undecided", detail="cbmc timeout after %ss" % g.timeout)
         return res
@@ -378,6 +425,10 @@ def verify_group(g, gen, scratch, extra_defs=(), tag=""):
     return res
 
 
+import threading
+SPLIT_SLOTS = threading.BoundedSemaphore(max(4, (os.cpu_count() or 8)))
+
+
 def run_split(g, binary, cmd):
     lst = run([c for c in cmd if c != "--trace"] + ["--show-properties"], timeout=600, mem_gb=g.mem)
     names = []
@@ -389,13 +440,28 @@ def run_split(g, binary, cmd):
         pass
     if not names:
         return dict(rc=lst["rc"], out=lst["out"], err="no property list: " + lst["err"][-500:], timeout=False), None, None, []
-    n = max(1, int(g.split))
-    shares = [names[i::n] for i in range(n)]
+    if g.split == "core":
+        # every obligation located in a function under contract / the harness entry is decided by its own cbmc
+        # process (alone each needs seconds; together in one incremental SAT session minutes), the rest share one
+        corefn = set(g.functions) | {g.entry}
+        core = [nm for nm in names if nm.split(".")[0] in corefn and not re.search(r"\.(pointer_dereference|pointer_primitives|array_bounds)\.", nm)]
+        rest = [nm for nm in names if nm not in set(core)]
+        shares = [[nm] for nm in core] + ([rest] if rest else [])
+        n = 16
+    else:
+        n = max(1, int(g.split))
+        shares = [names[i::n] for i in range(n)]
     def one(share):
         c = cmd[:-1]
         for nm in share:
             c += ["--property", nm]
-        return run(c + [cmd[-1]], timeout=g.timeout, mem_gb=g.mem)
+        with SPLIT_SLOTS:
+            rr = run(c + [cmd[-1]], timeout=g.timeout, mem_gb=g.mem)
+        if os.environ.get("VERIF_DEBUG"):
+            log("  share of %d properties: %.0fs; first: %s" % (len(share), rr["wall"], " ".join(share[:3])))
+            if rr["wall"] > 60:
+                log("   core members: " + " ".join(x for x in share if x.split(".")[0] in (set(g.functions) | {g.entry}))[:3000])
+        return rr
     with cf.ThreadPoolExecutor(max_workers=n) as ex:
         outs = list(ex.map(one, shares))
     merged, msgs, seen = [], [], {}
